@@ -109,6 +109,8 @@ def rand_spec(rng):
         t0 = rand_start(rng, not intraday)
         steps = rng.choice([0, 1, 2, 3, 10, rng.randrange(1, 300 if u in 'dw' else 600)])
         extra = rng.choice([TD(0), TD(0), UNIT_TD[u] * k / 2 if u != 's' else TD(0), TD(seconds=1)])
+        if steps >= 1 and rng.random() < 0.2:     # t1 a fraction of a second short of / beyond the grid point (F14: the until side)
+            extra = TD(microseconds=rng.choice([-1, -300000, 300000]))
         t1 = t0 + sgn * (steps * k * UNIT_TD[u] + extra)
         s = '%d%s' % (sgn * k, u)
         if rng.random() < 0.15:
